@@ -10,6 +10,8 @@ CACHE = os.path.join(BUILD, 'cache')
 HARNESS = os.path.join(VERIF, 'harness')
 GUARD = 'BBLANCHON_ARDUINOJSON_VERIF'
 NCPU = int(os.environ.get('VERIF_JOBS', '0')) or os.cpu_count() or 4
+# evidence of runs against another tree (VERIF_REPO=<scratch worktree>: canaries, seeded changes) never lands in evidence/
+SCRATCH_EVIDENCE = os.path.abspath(REPO) != '/repo'
 
 FLAVOURS = {
     'asan': ['g++', '-std=gnu++17', '-O1', '-g', '-fno-omit-frame-pointer',
